@@ -1,19 +1,38 @@
 #!/venv/bin/python
-"""record_detection.py <matrix output>... : write the `detected_by` entry of seeded/<id>/meta.json from the lines tools/seedmatrix.sh prints"""
+"""record_detection.py <matrix output>... : write the `detected_by` entry of seeded/<id>/meta.json from the lines that
+tools/seedmatrix.sh (all checks) or tools/ownmatrix.sh (own property only) print"""
 import json, os, re, sys
 ROOT = os.path.dirname(os.path.dirname(os.path.abspath(__file__)))
 n = 0
 for path in sys.argv[1:]:
     for line in open(path):
-        m = re.match(r"(C\d\d-\w+) -> VIOLATION in: (.*?)\| err: (.*?)\|\| rules: (.*)$", line.strip())
-        if not m:
+        line = line.strip()
+        m = re.match(r"(C\d\d-\w+) -> VIOLATION in: (.*?)\| err: (.*?)\|\| rules: (.*)$", line)
+        o = re.match(r"(C\d\d-\w+) rc=(\d*) err=(\d+) rules: (.*)$", line)
+        if m:
+            sid, viol, err, rules = m.groups()
+            checks = sorted(x.strip(":") for x in viol.split())
+            merge = False
+        elif o:
+            sid, rc, err, rules = o.groups()
+            if rc != "1":
+                continue
+            checks = [sid.split("-")[0]]
+            merge = True
+        else:
             continue
-        sid, viol, err, rules = m.groups()
         mp = os.path.join(ROOT, "seeded", sid, "meta.json")
         if not os.path.exists(mp):
             continue
         meta = json.load(open(mp))
-        meta["detected_by"] = {"checks_reporting_violation": sorted(x.strip(":") for x in viol.split()), "rules": sorted(rules.split())}
+        old = meta.get("detected_by") or {}
+        if merge:
+            checks = sorted(set(old.get("checks_reporting_violation", [])) | set(checks))
+            own_rules = sorted(rules.split())
+            rules_ = sorted(set(own_rules)) if own_rules else old.get("rules", [])
+        else:
+            rules_ = sorted(rules.split())
+        meta["detected_by"] = {"checks_reporting_violation": checks, "rules": rules_}
         json.dump(meta, open(mp, "w"), indent=1)
         n += 1
 print(n, "seeds updated")
